@@ -62,7 +62,7 @@ WRONG = [("int", "[0.5]"), ("int", "[1, 2.5]"), ("int", '["a"]'), ("int", "1, 0.
          ("bool", "[2]"), ("bool", '[True, "x"]'), ("int", "(1+2j)"), ("float", "[1+2j]"),
          # values just beside a value of the loop type, small and large (a tolerance has no place in a type check)
          ("int", "[3.00001]"), ("int", "[7.000000001]"), ("int", "[123456.5]"), ("int", "[1, 2000000.25]"), ("int", "[0.29*100]"), ("int", "[1e15+0.5]"), ("int", "[2.9999999999999996]"),
-         ("int", "[0, -0.0000001]"), ("int", "[250000+3/4]"), ("bool", "[0.5]"), ("bool", "[1.0000001]"), ("bool", "[True, 1e-9]"), ("float", "[1+1e-12j]"), ("float", "[0.5, 2-1e-9j]"), ("int", "[4+1e-12j]")]
+         ("int", "[0, -0.0000001]"), ("int", "[250000+3/4]"), ("bool", "[0.5]"), ("bool", "[1.0000001]"), ("bool", "[True, 1e-9]"), ("int", "[2.0, 3.7]"), ("int", "6/2, 7/2"), ("bool", "(1, 2)"), ("int", "[1, 2.0, 2.5]"), ("bool", "[True, 1, 3]"), ("float", "[1+1e-12j]"), ("float", "[0.5, 2-1e-9j]"), ("int", "[4+1e-12j]")]
 
 
 # bodies for loop types that are not numbers (the variable is an argument, a keyword value or a list element)
